@@ -458,6 +458,14 @@ class Matcher:
                     where, show(a.extra.get('shift')), show(b.extra.get('shift'))), a, b))
             if ka == 'ts' and bool(a.extra.get('ms')) != bool(b.extra.get('ms')):
                 self.c.diffs.append(Diff('width', '%s: timestamp resolution differs' % where, a, b))
+            if ka == 'ts' and (a.extra.get('from_spec') or b.extra.get('from_spec')):
+                sp = a if a.extra.get('from_spec') else b
+                code = b if sp is a else a
+                if not sp.extra.get('forever') and getattr(getattr(code, 'op', None), 'side', 'parse') == 'parse':
+                    # the timestamp primitives of the library treat the all-ones value as "no limit" (None) on both sides (C11.R5
+                    # tabulates that); a format whose specification has no such value loses that instant
+                    self.c.diffs.append(Diff('sentinel', '%s: the all-ones value of %s is an instant in the specification, the timestamp primitive reads and writes it as "no limit" (None)' % (
+                        where, (a.key or b.key or 'the timestamp')), a, b))
             return True
         if ka == 'array':
             ia, ib = a.body[0], b.body[0]
